@@ -69,7 +69,7 @@ STORAGE_CASES = [
     "ApplyUpdate:misaligned", "ApplyUpdate:below-oldest", "ApplyUpdate:gap", "ApplyUpdate:append-not-full",
     "ApplyUpdate:delta-non-tip", "ApplyUpdate:base-tx-count", "ApplyUpdate:delta-id-mismatch",
     "ApplyUpdate:nochange-non-tip", "AdvanceTo:empty", "AdvanceTo:aligned", "AdvanceTo:drop-all", "AdvanceTo:rebuild",
-    "Snapshot:", "HeadAdvance:", "HeadRevert:"]
+    "Snapshot:", "ReaderChain:", "HeadAdvance:", "HeadRevert:"]
 POLLER_CASES = [
     "TickStart:empty", "TickStart:aligned", "TickStart:drop-all", "TickStart:rebuild", "LatestResp:backfill",
     "LatestResp:bootstrap", "LatestResp:replace-tip", "LatestResp:preserved", "LatestResp:delta",
@@ -79,6 +79,8 @@ POLLER_CASES = [
 
 def require_cases(res, prefix, cases):
     """vacuity guard of the binding: every case of the code's case analysis was replayed on the real code"""
+    if res.get("divergences"):
+        return      # a diverging behaviour is cut short; the verdict is the divergence
     st = res.get("stats", {})
     missing = [c for c in cases if not st.get(prefix + c)]
     if missing:
